@@ -208,6 +208,149 @@ def upload (b : Backend) (batch : List Wire) : Bool × List Wire :=
     | .err => (false, (sendAll b 0 batch).2)
     | _ => (true, (sendAll b 0 batch).2)
 
+/-! ## Bulk records
+
+`n` consecutive `Record` calls of one device with the same data, in closed form (the driver uses
+it for counts around 2³¹; `Props/C16.lean: bulk_eq_iterate` proves it equal to `n` single steps). -/
+
+def recordN (t : Recs) (d : Dev) (m : Meta) (n : Nat) : Recs :=
+  if n = 0 then t else put t d ⟨m, cnt t d + n⟩
+
+def bulk (s : St) (d : Dev) (m : Meta) (n : Nat) : St :=
+  if n = 0 then s else
+  { s with pending := recordN s.pending d m n,
+           recorded := fun k => if k = d then s.recorded k + n else s.recorded k,
+           last := fun k => if k = d then some m else s.last k }
+
+/-! ## The server's side: `mainmw.recordQueryInfo`
+
+The only caller of `Record`.  What it knows of a handled query, and which `Record` call — if any
+— it makes. -/
+
+/-- A query the server has handled, as far as billing can see it. -/
+structure Query where
+  /-- the device of the profile the request was attributed to, if any (`ri.DeviceData()`) -/
+  dev : Option Dev
+  /-- country and ASN of the client's address if GeoIP knows it (`ri.Location`) -/
+  loc : Option (Nat × Nat)
+  /-- `dnsserver.RequestInfo.StartTime` -/
+  start : Int
+  /-- `ri.Proto`: the protocol of the server that took the request -/
+  proto : Nat
+  /-- the profile has query logging enabled (must not matter) -/
+  qlog : Bool
+  /-- the next handler succeeded and the response was written to the client; otherwise `mainmw`
+  returns the error before it reaches `recordQueryInfo` -/
+  answered : Bool := true
+deriving DecidableEq, Repr
+
+/-- `recordQueryInfo`'s call of `Record`: none for a request that was not answered or has no
+profile; otherwise the device's id, the client's country and ASN (country "none" = index 0 and
+ASN 0 without a location), the request's start time and the server's protocol. -/
+def billOf (q : Query) : Option (Dev × Meta) :=
+  if !q.answered then none else
+  match q.dev with
+  | none => none
+  | some d =>
+    match q.loc with
+    | none => some (d, ⟨q.start, 0, 0, q.proto⟩)
+    | some l => some (d, ⟨q.start, l.1, l.2, q.proto⟩)
+
+/-! ## End to end: server → recorder → `BillStat.Upload` → backend -/
+
+/-- The messages `BillStat.Upload` hands to the stream for a batch: Go ranges over the map in
+some order `order`; devices without a record are not in the map. -/
+def wireBatch (order : List Dev) (t : Recs) : List Wire :=
+  order.filterMap fun d => (t d).map (toWire d)
+
+/-- Queries reported for `d` by a list of messages. -/
+def wireSum (d : Dev) : List Wire → Nat
+  | [] => 0
+  | w :: ws => (if w.dev = d then w.queries else 0) + wireSum d ws
+
+/-- `order` is an iteration order of the map `t`: every key once. -/
+def Covers (order : List Dev) (t : Recs) : Prop :=
+  order.Nodup ∧ ∀ d, t d ≠ none → d ∈ order
+
+inductive Ev where
+  /-- the server has handled a query -/
+  | query (q : Query)
+  /-- a `Refresh` starts (refresh worker, debug API or shutdown) -/
+  | begin
+  /-- the upload in flight runs against a backend behaving as `b`; the map is ranged in `order` -/
+  | finish (b : Backend) (order : List Dev)
+
+/-- The recorder ops an event amounts to in state `s`. -/
+def lowerEv (s : St) : Ev → List Op
+  | .query q =>
+    match billOf q with
+    | none => []
+    | some dm => [.record dm.1 dm.2]
+  | .begin => [.begin]
+  | .finish b order =>
+    match s.inflight[0]? with
+    | none => []
+    | some batch =>
+      if (upload b (wireBatch order batch.recs)).1 then [.endOk 0] else [.endFail 0]
+
+structure E2E where
+  st : St
+  /-- ghost: per device, the queries the backend was told on streams it acknowledged -/
+  acked : Dev → Nat
+  /-- ghost: the acknowledged streams, oldest first -/
+  streams : List (List Wire)
+
+def E2E.init : E2E := { st := St.init, acked := fun _ => 0, streams := [] }
+
+def E2E.step (e : E2E) (ev : Ev) : E2E :=
+  match ev with
+  | .finish b order =>
+    match e.st.inflight[0]? with
+    | none => e
+    | some batch =>
+      if (upload b (wireBatch order batch.recs)).1 then
+        { st := runSer e.st (lowerEv e.st ev),
+          acked := fun d => e.acked d + wireSum d (upload b (wireBatch order batch.recs)).2,
+          streams := e.streams ++ [(upload b (wireBatch order batch.recs)).2] }
+      else { e with st := runSer e.st (lowerEv e.st ev) }
+  | _ => { e with st := runSer e.st (lowerEv e.st ev) }
+
+def E2E.run (e : E2E) : List Ev → E2E
+  | [] => e
+  | ev :: evs => E2E.run (e.step ev) evs
+
+/-- The recorder ops a list of events amounts to from state `s`. -/
+def lower (s : St) : List Ev → List Op
+  | [] => []
+  | ev :: evs => lowerEv s ev ++ lower (runSer s (lowerEv s ev)) evs
+
+/-- Number of handled queries attributed to device `d`. -/
+def billed (d : Dev) : List Ev → Nat
+  | [] => 0
+  | .query q :: evs => (match billOf q with | some dm => if dm.1 = d then 1 else 0 | none => 0) + billed d evs
+  | _ :: evs => billed d evs
+
+/-- Billing data of the most recent handled query attributed to `d`. -/
+def lastBilled (d : Dev) : List Ev → Option Meta
+  | [] => none
+  | .query q :: evs =>
+    match lastBilled d evs with
+    | some m => some m
+    | none => match billOf q with
+      | some dm => if dm.1 = d then some dm.2 else none
+      | none => none
+  | _ :: evs => lastBilled d evs
+
+/-- Every upload that finishes ranges over its whole batch, each key once, and no device has
+2³² or more queries in one batch. -/
+def GoodRun (e : E2E) : List Ev → Prop
+  | [] => True
+  | ev :: evs =>
+    (match ev with
+     | .finish _ order => ∀ batch, e.st.inflight[0]? = some batch →
+         Covers order batch.recs ∧ ∀ d, cnt batch.recs d < 4294967296
+     | _ => True) ∧ GoodRun (e.step ev) evs
+
 /-! ## An independent specification: the ledger
 
 What the recorder is *for*, written without maps of shared records and without a merge: per
